@@ -471,17 +471,20 @@ def _add_glyph(svg: SVG, color_glyph: ColorGlyph, reuse_cache: ReuseCache):
     upem_to_vbox = vbox_to_upem.inverse()
 
     # copy the shapes into our svg
+    # Paths are tracked by the identity of the paints on them: equal-valued siblings
+    # (e.g. two identical opacity groups) are distinct nodes and must not be merged.
     el_by_path = {(): svg_g}
     complete_paths = set()
     nth_paint_glyph = 0
 
     for root in color_glyph.painted_layers:
         for context in root.breadth_first():
-            if any(c == context.path[: len(c)] for c in complete_paths):
+            context_path = tuple(id(p) for p in context.path)
+            if any(c == context_path[: len(c)] for c in complete_paths):
                 continue
 
             parent_el = svg_g
-            path = context.path
+            path = context_path
             while path:
                 if path in el_by_path:
                     parent_el = el_by_path[path]
@@ -562,7 +565,7 @@ def _add_glyph(svg: SVG, color_glyph: ColorGlyph, reuse_cache: ReuseCache):
                     parent_el.append(el)  # pytype: disable=attribute-error
 
                 # don't update el_by_path because we're declaring this path complete
-                complete_paths.add(context.path + (context.paint,))
+                complete_paths.add(context_path + (id(context.paint),))
                 nth_paint_glyph += 1
 
             elif isinstance(context.paint, PaintColrLayers):
@@ -573,7 +576,7 @@ def _add_glyph(svg: SVG, color_glyph: ColorGlyph, reuse_cache: ReuseCache):
 
             elif _is_svg_supported_composite(context.paint):
                 el = etree.SubElement(parent_el, f"{{{svg_meta.svgns()}}}g")
-                el_by_path[context.path + (context.paint,)] = el
+                el_by_path[context_path + (id(context.paint),)] = el
 
             # TODO: support transform types, either by introducing <g> or by applying context.transform to Paint
 
